@@ -1,5 +1,7 @@
 #pragma once
 
+#include <errno.h>
+
 #include <optional>
 #include <string>
 #include <unordered_map>
@@ -179,6 +181,7 @@ private:
   static RetT parse_int(const IdentT& id, const std::string& text, IntFormat format) {
     int64_t v;
     char* conversion_end;
+    errno = 0;
     switch (format) {
       case IntFormat::DEFAULT:
         v = strtoull(text.c_str(), &conversion_end, 0);
@@ -209,6 +212,14 @@ private:
     }
     if (*conversion_end != '\0') {
       throw std::invalid_argument(exc_prefix(id) + "extra data after integer");
+    }
+
+    // strtoull reports a magnitude of 2^64 or more only through errno, and it negates in 64 bits, so a
+    // magnitude of 2^63 or more comes back with the wrong sign. Only uint64_t can hold such values.
+    bool is_negative = (text.find('-') != std::string::npos);
+    if ((errno == ERANGE) ||
+        (!(std::is_unsigned_v<RetT> && (sizeof(RetT) == 8)) && (v != 0) && ((v < 0) != is_negative))) {
+      throw std::invalid_argument(exc_prefix(id) + "value out of range");
     }
 
     uint64_t uv = static_cast<uint64_t>(v);
